@@ -3,6 +3,7 @@ package c01
 import (
 	"strings"
 
+	"verif/harness/pooladapt"
 	"verif/report"
 )
 
@@ -25,7 +26,7 @@ func classify(v *report.Violation) {
 		v.Class = "C01-nexus-hash-collision"
 	// PoolAllocator has no lock of its own: Allocate = IPAllocator.Allocate then store.SaveAllocation,
 	// Release = IPAllocator.Release then store.RemoveAllocation; the two pairs interleave.
-	case strings.HasPrefix(v.Part, "sched:allocator.PoolAllocator[") && v.Kind == "query" && v.Site == "store.GetByPool" && allocVsReleaseSameSub(v.Trace):
+	case strings.HasPrefix(v.Part, "sched:allocator.PoolAllocator[") && v.Kind == "query" && v.Site == "store.GetByPool" && pooladapt.AllocVsReleaseSameSub(v.Trace):
 		v.Class = "C01-poolalloc-allocate-release-race"
 	}
 }
@@ -56,27 +57,4 @@ func failedReask(tr []string) bool {
 		}
 	}
 	return held
-}
-
-// allocVsReleaseSameSub: the scenario runs A:x and R:x for the same subscriber on different threads.
-func allocVsReleaseSameSub(tr []string) bool {
-	if len(tr) < 2 || !strings.HasPrefix(tr[1], "threads=") {
-		return false
-	}
-	ths := strings.Split(strings.Trim(strings.TrimPrefix(tr[1], "threads="), "[]"), "] [")
-	for i, a := range ths {
-		for j, b := range ths {
-			if i == j {
-				continue
-			}
-			for _, oa := range strings.Fields(a) {
-				for _, ob := range strings.Fields(b) {
-					if strings.HasPrefix(oa, "A:") && strings.HasPrefix(ob, "R:") && oa[2:] == ob[2:] {
-						return true
-					}
-				}
-			}
-		}
-	}
-	return false
 }
